@@ -15,7 +15,7 @@ from __future__ import annotations
 from . import common as C
 from . import workload as W
 
-PAIR_OPS = ("pair_read", "pair_deep", "pair_basic")
+PAIR_OPS = ("pair_read", "pair_deep", "pair_basic", "pair_derive")
 RESTART_OPS = ("pickle", "copy", "deepcopy", "reduce", "legacy_setstate", "deepcopy_in", "pickle_in", "copy_in")
 NETLOC_DERIVED = ("raw_user", "raw_password", "raw_host", "explicit_port")
 PREFILLED = ("raw_host", "explicit_port", "raw_user", "raw_password", "scheme", "raw_path", "raw_query_string", "raw_fragment")
@@ -48,6 +48,7 @@ class Exec:
         self.after_cfg0 = False
         self.bad = []
         self.first = {}
+        self.states = set()
         self.missing = C.apply_cache_knobs(knobs)
 
     def live(self):
@@ -93,6 +94,7 @@ class Exec:
                 self.ctr.inc("restart_twin_of_twin")
             if pre:
                 self.nontrivial.add(C.h8(W.shallow(self.slots[o])))
+            self.states.add(C.h8((src["op"], name, tuple(sorted(memo)))))
         return out
 
     # -- oracle ops ------------------------------------------------------------------
@@ -132,6 +134,23 @@ class Exec:
             for v in da.values():
                 if isinstance(v, list):
                     self.monitor(v)
+        elif name == "pair_derive":
+            # the same modifier applied to original and twin must give the same result: modifiers
+            # read memoised netloc parts on one side and derive them on the other
+            tmpl = op["args"][0]
+            outs = []
+            for side in (op["on"], op["other"]):
+                t = dict(tmpl)
+                t["on"] = side
+                o, res, _ = W.apply_op(t, self.slots)
+                outs.append([o, W.deep(res, None, level=0) if W.is_url(res) else None])
+                self.monitor(o)
+            self.ctr.inc("pair_derives")
+            if outs[0][0] != outs[1][0]:
+                diff["derive:" + tmpl["op"]] = [outs[0][0], outs[1][0]]
+            elif outs[0][1] is not None and outs[1][1] is not None:
+                for n in W.deep_diff(outs[0][1], outs[1][1]):
+                    diff["derive:" + tmpl["op"] + "." + n] = [_lookup(outs[0][1], n), _lookup(outs[1][1], n)]
         else:  # pair_basic
             self.ctr.inc("pair_basics")
             def both(label, fa, fb, want=None):
@@ -241,10 +260,16 @@ def generate_and_run(seed, cfg):
         elif r < 0.75 and ex.pairs:
             o, t = rng.choice(ex.pairs)
             r2 = rng.random()
-            if r2 < 0.7:
+            if r2 < 0.62:
                 op = {"op": "pair_read", "on": o, "other": t, "args": [rng.choice(W.ALL_READS), rng.randint(0, 1)]}
-            elif r2 < 0.85:
+            elif r2 < 0.78:
                 op = {"op": "pair_basic", "on": o, "other": t, "args": [_third(rng, ex, o)]}
+            elif r2 < 0.9:
+                tmpl = W.gen_derivation(rng, at, [o])
+                if tmpl.get("other") is not None:
+                    tmpl["other"] = rng.choice(live)
+                tmpl.pop("on", None)
+                op = {"op": "pair_derive", "on": o, "other": t, "args": [tmpl]}
             else:
                 o1 = list(W.ALL_READS)
                 o2 = list(W.ALL_READS)
@@ -357,6 +382,7 @@ def finish(ex, seed):
         "violations": ex.violations,
         "counters": dict(ex.ctr),
         "nontrivial": sorted(ex.nontrivial),
+        "states": sorted(ex.states),
         "digest": C.digest(ex.outcomes),
         "missing_knobs": ex.missing,
         "pairs": len(ex.pairs),
